@@ -225,7 +225,7 @@ theorem guard_tests_what_is_written (fs : FS) (output : String) (phase : Int) (r
       cases hf : fs.isfile output with
       | false => rfl
       | true => simp [hf] at hg
-    simp only [hg, if_false] at he ⊢
+    simp only [hg] at he ⊢
     cases run with
     | error err => simp at he; rcases he with rfl | rfl <;> cases hp
     | ok o =>
@@ -238,11 +238,18 @@ theorem guard_tests_what_is_written (fs : FS) (output : String) (phase : Int) (r
         · simp only [Eff.writes?, Option.some.injEq] at hp; subst hp; exact ⟨rfl, by simp, hno⟩
         · cases hp
       | ok u =>
-        simp [ho] at he
-        rcases he with rfl | rfl | rfl
-        · cases hp
-        · simp only [Eff.writes?, Option.some.injEq] at hp; subst hp; exact ⟨rfl, by simp, hno⟩
-        · simp only [Eff.writes?, Option.some.injEq] at hp; subst hp; exact ⟨rfl, by simp, hno⟩
+        by_cases hd : o.dumpFails = true
+        · simp [ho, hd] at he
+          rcases he with rfl | rfl | rfl | rfl
+          · cases hp
+          · simp only [Eff.writes?, Option.some.injEq] at hp; subst hp; exact ⟨rfl, by simp, hno⟩
+          · simp only [Eff.writes?, Option.some.injEq] at hp; subst hp; exact ⟨rfl, by simp, hno⟩
+          · cases hp
+        · simp [ho, hd] at he
+          rcases he with rfl | rfl | rfl
+          · cases hp
+          · simp only [Eff.writes?, Option.some.injEq] at hp; subst hp; exact ⟨rfl, by simp, hno⟩
+          · simp only [Eff.writes?, Option.some.injEq] at hp; subst hp; exact ⟨rfl, by simp, hno⟩
 
 /-- **Never overwrites:** when the argument names an existing file (`phase = 0`) no effect of the trace opens or writes
     anything; whatever the arguments, a write happens at most once, into the argument path, after `gen` computed its
@@ -260,15 +267,15 @@ theorem never_overwrites (fs : FS) (output : String) (phase : Int) (run : Except
   · unfold mainGen; simp only [guardPath, writePath]
     by_cases hg : (fs.isfile output && phase == 0) = true
     · simp [hg, List.filter, Eff.isFinalWrite]
-    · simp only [hg, if_false]
+    · simp only [hg]
       cases run with
       | error err => simp [List.filter, Eff.isFinalWrite]
-      | ok o => cases fs.openAppend output <;> simp [List.filter, Eff.isFinalWrite]
+      | ok o => cases fs.openAppend output <;> by_cases hd : o.dumpFails = true <;> simp [List.filter, Eff.isFinalWrite, hd]
   · intro he
     unfold mainGen at he; simp only [guardPath, writePath] at he
     by_cases hg : (fs.isfile output && phase == 0) = true
     · simp [hg] at he
-    · simp only [hg, if_false] at he
+    · simp only [hg] at he
       cases run with
       | error err => simp at he
       | ok o =>
